@@ -247,6 +247,12 @@ func spellings(t *Ty, v *Lit, site string) []*Case {
 		if dn := deepNullable(t); dn.String() != nt.String() {
 			out = append(out, mk("var-deep-nullable", t, nil, []VarDef{{"v", dn, nil}}, lVar("v"), one(j)))
 			out = append(out, mk("var-deep-nullable-in-list", L(t), nil, []VarDef{{"v", dn, nil}}, lList(lVar("v")), one(j)))
+			// ... and a default (of the variable, or of a non-null variable) excuses only the variable's
+			// own nullability, never that of the items of its list type
+			if !v.hasVar() {
+				out = append(out, mk("vardef-deep-nullable", t, nil, []VarDef{{"v", dn, v}}, lVar("v"), one(j)))
+				out = append(out, mk("vardef-nn-deep-nullable", t, nil, []VarDef{{"v", NN(dn), v}}, lVar("v"), one(j)))
+			}
 		}
 		// CoerceVariableValues only looks at declared variables: a value for an undeclared one is ignored
 		out = append(out, mk("var-extra-undeclared", t, nil, []VarDef{{"v", t, nil}}, lVar("v"), map[string]interface{}{"v": j, "undeclared": j}))
@@ -275,6 +281,12 @@ func spellings(t *Ty, v *Lit, site string) []*Case {
 		out = append(out, mk("argdef-overridden", t, d, nil, v, nil))
 		// a required variable without a value is an error even where a default would be at hand
 		out = append(out, mk("argdef-var-nn-absent", t, d, []VarDef{{"u", NN(nt), nil}}, lVar("u"), nil))
+		// the same with the location's default in play
+		if hasJSON {
+			if dn := deepNullable(t); dn.String() != nt.String() {
+				out = append(out, mk("argdef-deep-nullable", t, d, []VarDef{{"v", dn, nil}}, lVar("v"), map[string]interface{}{"v": j}))
+			}
+		}
 		if d != schema.Null {
 			wd := &NamedDef{Name: "W", Hook: "none", Fields: []InDef{{"k", N("Int"), 1}, {"w", t, d}}}
 			regd := newRegistry(wd)
